@@ -138,8 +138,10 @@ def judge_trig(fb, xb, kb, rb, tb):
                 else:
                     isnear = abs(rem) < m.mpf(2) ** (-{32: 18, 64: 40}[fb])
                 near = "near-multiple-of-pi/2" if isnear else "generic"
-                if fb == 32 and not isnear and abs(xm) >= m.mpf(2) ** 116:
-                    # float32 words cannot hold bits of 2/pi below 2^-149: beyond |x| ~ 2^116 the table is exhausted
+                if fb == 32 and not isnear and abs(xm) >= abs(rem) * m.mpf(2) ** 124:
+                    # float32 words cannot hold bits of 2/pi below 2^-149; the remainder needs bits down to about
+                    # 2^-(e_x + p + log2(1/|r|)): the table is exhausted when |x| / |r| >= 2^124 (measured: every failure
+                    # of the unchanged tree has |x| / |r| >= 2^126, the smallest x at 2^114.7 with |r| = 2^-13)
                     near = "two-over-pi-table-exhausted"
                 bad.append(("trig/remainder/%s/f%d" % (near, fb), "x=%r: k=%d r+t=%r, true remainder %s: off by %s ulp (lattice %d), tolerance %d" % (x, int(K), rr + tt, m.nstr(rem, 12), m.nstr(n_ulp, 6), d, tol)))
         return "in", bad, float(n_ulp)
